@@ -25,6 +25,9 @@ package sumdb
 //@   requires c != nil
 //@   modifies Client.latest, Client.latestMsg, ghost.LOCKSNAP, "map[tlog.Tile]bool", ghost.WRITTEN
 //@   ensures [C01] authenticated: result == nil ==> AUTHREC(c.verifiers, id, string(data))
+//@   # ReadHashes needs storage indexes (non-negative): StoredHashIndex(0, id) is 0 for a negative id and exact for
+//@   # ids below 2^61; that logs stay below that size is assumed (beyond it the int64 index arithmetic wraps)
+//@   call HashReader.ReadHashes assumes "log sizes stay below 2^61 records: StoredHashIndex(0, id) does not wrap for id < latest.N" forall i int :: 0 <= i && i < len(arg_indexes) ==> arg_indexes[i] >= 0
 //@   props C01
 
 //@ # checkTrees succeeds only if the older tree is a prefix of the newer one (its hash is the prefix hash the newer head commits to)
